@@ -274,3 +274,47 @@ def keys_threaded(P, R, rule: str, only: tuple[str, ...] | None = None) -> None:
                     R.undecided(rule, f, c, label, f"`{p_}` = `{t[:60]}`")
     if n == 0:
         R.undecided(rule, "data model", "", "annotators are told the attribute names of the feature dictionary", "no annotator construction with a key parameter found")
+
+
+def total_write(P, R, ann, rule: str) -> None:
+    """A write kernel that is handed the LIST of elements to (re)write writes every one of them: the value found for the
+    elements it can match, and the neutral value for whatever is left.  On the control-flow graph, every normal exit of
+    the kernel is reached only through a loop over that parameter whose body writes the attribute - an early return
+    ("nothing can overlap in an empty frame") leaves the stale value of a previous state, or no value at all."""
+    import ast as _ast
+
+    from ..cfg import build_cfg
+    from ..model import call_name as _cn, norm as _norm
+
+    n = 0
+    for m in ann.methods.values():
+        params = [p for p in m.params if p not in ("self", "cls")]
+        writes = [c for c in _ast.walk(m.node) if isinstance(c, _ast.Call) and (_cn(c) or "") in ("_set_edge_attr", "_set_node_attr", "_set_edges_attr", "_set_nodes_attr")]
+        if not writes or not params:
+            continue
+        for p_ in params:
+            # a loop over the parameter itself whose body writes the loop variable
+            loops = []
+            for lp in _ast.walk(m.node):
+                if isinstance(lp, _ast.For) and _norm(lp.iter) in (p_, f"list({p_})", f"tuple({p_})") and isinstance(lp.target, _ast.Name):
+                    if any(isinstance(c, _ast.Call) and c in writes and c.args and _norm(c.args[0]) == lp.target.id for c in _ast.walk(lp)):
+                        loops.append(lp)
+            if not loops:
+                continue
+            n += 1
+            cfg = build_cfg(m.node)
+            entry = next(x.id for x in cfg.nodes.values() if x.kind == "entry")
+            exit_ = next(x.id for x in cfg.nodes.values() if x.kind == "exit")
+            heads = {cfg.node_of(lp) for lp in loops} - {None}
+            label = f"{m.short}: every element of `{p_}` is written (matched value, or the neutral one for the rest)"
+            if not heads:
+                R.undecided(rule, m, m.node, label, "loop not found on the control-flow graph")
+            elif cfg.reachable(entry, exit_, avoiding=heads):
+                rets = [r for r in _ast.walk(m.node) if isinstance(r, _ast.Return) and r.lineno < min(lp.lineno for lp in loops)]
+                R.fail(rule, m, rets[0] if rets else m.node, label,
+                       f"a path leaves {m.name} without passing the loop over `{p_}`: the edges handed in keep the value of an earlier state (or none) although the "
+                       "feature was just (re)computed - bulk recomputation and the incremental path then disagree")
+            else:
+                R.ok(rule, m, loops[0], label, "every normal exit passes the loop", via="cfg-must-pass")
+    if n == 0:
+        R.undecided(rule, ann, "", f"{ann.name}: write kernels write every element they are handed", "no kernel with a list parameter and a catch-all loop found")
